@@ -85,8 +85,11 @@ def job(args):
                         d = uci.parse_info(l)
                         # (an early iteration may announce a longer mate than the exact one: late root moves searched with reduced
                         #  depth are not probed yet — the audit judges the score the search settles on, not the first one)
-                        if (want_mate and d.get("score_kind") == "mate" and "bound" not in d and d["depth"] >= 5) or d.get("depth", 0) >= 9:
+                        beyond = expect == "nomate" and val != "draw"       # a forced mate exists but does not fit the 50-move window: search on,
+                                                                             # a wrong announcement may need depth (and a well-filled table) to appear
+                        if (want_mate and d.get("score_kind") == "mate" and "bound" not in d and d["depth"] >= 5) or d.get("depth", 0) >= (40 if beyond else 9):
                             done = True
+                        if beyond and time.time() - t_go > 5.0: done = True
             eng.send("stop")
             try:
                 out += eng.read_until(lambda l: l.startswith("bestmove"), 60)
